@@ -57,6 +57,8 @@ type event struct {
 	Upto int     `json:",omitempty"` // idle, busy: number of events logged before NumTasks() was called
 	N    int     `json:",omitempty"` // busy: what NumTasks() returned (> 0)
 	Sync bool    `json:",omitempty"` // start: RunTask (returns after runPostlude)
+	OnQ  bool    `json:",omitempty"` // ctx: from WithCancelOnQuiesce (else WithCancelOnStop)
+	Canc bool    `json:",omitempty"` // ctx: Err() != nil, read after the sample was taken
 	Smp  *sample `json:",omitempty"`
 }
 
@@ -158,6 +160,21 @@ func (l *evlog) idle() {
 	l.mu.Unlock()
 }
 
+// ctxSample logs whether context x is cancelled; the channels are sampled
+// first, the context is read afterwards, both under the log lock.
+func (l *evlog) ctxSample(x int, onq bool, ctx context.Context) {
+	l.mu.Lock()
+	sm := &sample{}
+	sm.D = closed(l.s.IsStopped())
+	sm.S = closed(l.s.ShouldStop())
+	sm.Q = closed(l.s.ShouldQuiesce())
+	for _, c := range l.sems {
+		sm.Lens = append(sm.Lens, len(c))
+	}
+	l.evs = append(l.evs, event{K: "ctx", ID: x, Sem: -1, OnQ: onq, Canc: ctx.Err() != nil, Smp: sm})
+	l.mu.Unlock()
+}
+
 // start logs that Run*Task number id is about to be called.
 func (l *evlog) start(id, sem int, sync bool) {
 	l.mu.Lock()
@@ -204,7 +221,7 @@ type hop struct {
 	K    string // task limited release panic worker wrelease wpanic addcloser withcancel cancelfn stop quiesce
 	N    int    // task / worker / ctx index, or semaphore index for limited
 	B    bool   // task: async; limited: wait; withcancel: on quiesce
-	Ctx  int    // limited: context index or -1
+	Ctx  int    // task, limited, stop, quiesce: index of the WithCancelOn* context passed, or -1 (background)
 	Tail bool   // part of the closing tail of the sequence
 }
 
@@ -238,10 +255,15 @@ func (o hop) coq() string {
 		return "HWithCancel " + vh.Bool(o.B)
 	case "cancelfn":
 		return fmt.Sprintf("HCancelFn %d", o.N)
-	case "stop":
-		return "HStop"
-	case "quiesce":
-		return "HQuiesce"
+	case "stop", "quiesce":
+		c := "None"
+		if o.Ctx >= 0 {
+			c = fmt.Sprintf("(Some %d)", o.Ctx)
+		}
+		if o.K == "stop" {
+			return "HStop " + c
+		}
+		return "HQuiesce " + c
 	}
 	panic("bad op " + o.K)
 }
@@ -356,6 +378,10 @@ func (e event) coq() string {
 		return fmt.Sprintf("EBusy %d %s %s", e.Upto, zz(e.N), smpCoq(e.Smp))
 	case "final":
 		return "EFinal " + smpCoq(e.Smp)
+	case "ctx":
+		return fmt.Sprintf("ECtx %d %s %s %s", e.ID, vh.Bool(e.OnQ), vh.Bool(e.Canc), smpCoq(e.Smp))
+	case "ctxfn":
+		return fmt.Sprintf("ECtxFn %d", e.ID)
 	}
 	panic("bad event " + e.K)
 }
@@ -657,6 +683,7 @@ type taskRec struct {
 type ctxRec struct {
 	ctx    context.Context
 	cancel func()
+	onq    bool
 }
 
 type ctl struct {
@@ -821,6 +848,7 @@ func (c *ctl) do(o hop) {
 		c.l.add("addret", cl.id, -1, "", true)
 	case "withcancel":
 		var x ctxRec
+		x.onq = o.B
 		if o.B {
 			x.ctx, x.cancel = c.s.WithCancelOnQuiesce(bg)
 		} else {
@@ -828,6 +856,7 @@ func (c *ctl) do(o hop) {
 		}
 		c.ctxs = append(c.ctxs, x)
 	case "cancelfn":
+		c.l.add("ctxfn", o.N, -1, "", false)
 		c.ctxs[o.N].cancel()
 	case "stop", "quiesce":
 		k := c.ncall
@@ -835,16 +864,22 @@ func (c *ctl) do(o hop) {
 		done := new(int32)
 		c.calls = append(c.calls, done)
 		isStop := o.K == "stop"
+		sctx := bg
+		if o.Ctx >= 0 {
+			// live, cancelled already, or cancelled while Stop / Quiesce
+			// waits: they must not care
+			sctx = c.ctxs[o.Ctx].ctx
+		}
 		go func() {
 			defer c.l.guard("Stop/Quiesce")
 			if isStop {
 				c.l.add("stopcall", k, -1, "", false)
-				c.s.Stop(bg)
+				c.s.Stop(sctx)
 				atomic.StoreInt32(done, 1)
 				c.l.add("stopret", k, -1, "", true)
 			} else {
 				c.l.add("quicall", k, -1, "", false)
-				c.s.Quiesce(bg)
+				c.s.Quiesce(sctx)
 				atomic.StoreInt32(done, 1)
 				c.l.add("quiret", k, -1, "", true)
 			}
@@ -951,9 +986,9 @@ func genOps(rng *rand.Rand, caps []int, maxLen int) ([]hop, bool) {
 			}
 			o = hop{K: "cancelfn", N: rng.Intn(len(tw.ctxs))}
 		case r < 97:
-			o = hop{K: "stop"}
+			o = hop{K: "stop", Ctx: pickTaskCtx(rng, tw)}
 		default:
-			o = hop{K: "quiesce"}
+			o = hop{K: "quiesce", Ctx: pickTaskCtx(rng, tw)}
 		}
 		// would the closing tail still fit?
 		probe := 1
@@ -980,7 +1015,7 @@ func genOps(rng *rand.Rand, caps []int, maxLen int) ([]hop, bool) {
 	for {
 		var cand []hop
 		if !tw.stopCalled {
-			cand = append(cand, hop{K: "stop", Tail: true})
+			cand = append(cand, hop{K: "stop", Tail: true, Ctx: pickTaskCtx(rng, tw)})
 		}
 		for _, i := range tw.runningTasks() {
 			cand = append(cand, hop{K: "release", N: i, Tail: true})
@@ -1027,6 +1062,7 @@ func runCtl(caps []int, ops []hop) ctlCase {
 	go func() {
 		defer close(done)
 		tw := &twin{caps: caps, lens: make([]int, len(caps))}
+		ctxKey := ""
 		for _, o := range ops {
 			mu.Lock()
 			res.StuckAt = o.coq()
@@ -1036,6 +1072,14 @@ func runCtl(caps []int, ops []hop) ctlCase {
 			exp, ambig := tw.expected()
 			ob := c.settle(exp, ambig)
 			c.l.idle()
+			// the contexts, whenever a channel or a context changed state
+			key := fmt.Sprint(ob.Q, ob.S, ob.Ctx)
+			if key != ctxKey {
+				ctxKey = key
+				for x, cr := range c.ctxs {
+					c.l.ctxSample(x, cr.onq, cr.ctx)
+				}
+			}
 			mu.Lock()
 			res.Ops = append(res.Ops, o.coq())
 			res.OpsJ = append(res.OpsJ, o)
@@ -1117,7 +1161,7 @@ func runFree(seed int64) freeCase {
 	}
 	l := &evlog{sems: sems}
 	s := newStopper(l)
-	var taskID, workerID, closerID, callID int32
+	var taskID, workerID, closerID, callID, ctxID int32
 	var wg sync.WaitGroup // every goroutine the harness itself starts
 	bg := context.Background()
 	nStops := 1 + rng.Intn(3)
@@ -1195,6 +1239,8 @@ func runFree(seed int64) freeCase {
 		defer once.Do(prologue.Done)
 		var cancels []func()
 		var ctxs []context.Context
+		var cids []int
+		var conq []bool
 		// the context handed to RunTask / RunAsyncTask: background, or one of
 		// this actor's WithCancelOn* contexts, cancelled or not
 		pickCtx := func() context.Context {
@@ -1238,25 +1284,38 @@ func runFree(seed int64) freeCase {
 			case x < 92:
 				var ctx context.Context
 				var cancel func()
-				if r.Intn(2) == 0 {
+				onq := r.Intn(2) == 0
+				if onq {
 					ctx, cancel = s.WithCancelOnQuiesce(bg)
 				} else {
 					ctx, cancel = s.WithCancelOnStop(bg)
 				}
+				cid := int(atomic.AddInt32(&ctxID, 1)) - 1
+				l.ctxSample(cid, onq, ctx)
 				ctxs = append(ctxs, ctx)
 				cancels = append(cancels, cancel)
+				cids = append(cids, cid)
+				conq = append(conq, onq)
 				if r.Intn(3) == 0 {
+					l.add("ctxfn", cid, -1, "", false)
 					cancel() // already cancelled when handed to a later submission
 				}
 			case x < 96:
 				if len(cancels) > 0 {
-					cancels[r.Intn(len(cancels))]()
+					k := r.Intn(len(cancels))
+					l.add("ctxfn", cids[k], -1, "", false)
+					cancels[k]()
 				}
 			default:
 				l.add("obs", 0, -1, "", true)
+				for k := range ctxs {
+					l.ctxSample(cids[k], conq[k], ctxs[k])
+				}
 			}
 		}
-		for _, c := range cancels {
+		for k, c := range cancels {
+			l.ctxSample(cids[k], conq[k], ctxs[k])
+			l.add("ctxfn", cids[k], -1, "", false)
 			c()
 		}
 	}
@@ -1330,10 +1389,23 @@ func runFree(seed int64) freeCase {
 		if storm {
 			delay = time.Duration(10+rng.Intn(150)) * time.Microsecond
 		}
+		// the context handed to Stop / Quiesce: background, one that is
+		// cancelled already, or one cancelled a moment later (possibly while
+		// the call waits for the tasks): Stop and Quiesce must not care
+		sctx, scancel := context.WithCancel(bg)
+		smode := rng.Intn(4)
+		sdelay := time.Duration(rng.Intn(600)) * time.Microsecond
 		go func() {
 			defer wg.Done()
 			defer l.guard("Stop/Quiesce")
+			defer scancel()
 			prologue.Wait()
+			switch smode {
+			case 0:
+				scancel()
+			case 1:
+				time.AfterFunc(delay+sdelay, scancel)
+			}
 			goOnce.Do(func() { close(goCh) })
 			if storm {
 				// a timer may fire late by more than the hammering lasts: spin
@@ -1346,11 +1418,11 @@ func runFree(seed int64) freeCase {
 			id := int(atomic.AddInt32(&callID, 1)) - 1
 			if isStop {
 				l.add("stopcall", id, -1, "", false)
-				s.Stop(bg)
+				s.Stop(sctx)
 				l.add("stopret", id, -1, "", true)
 			} else {
 				l.add("quicall", id, -1, "", false)
-				s.Quiesce(bg)
+				s.Quiesce(sctx)
 				l.add("quiret", id, -1, "", true)
 			}
 		}()
